@@ -132,6 +132,17 @@ func LinkKey(k int) enc.SharedKey {
 	return sk
 }
 
+// DebugIO returns a private CBOR codec instance (default or link-key) whose debug switch is on.
+func DebugIO(c Codec, key int) iface.IO {
+	opts := &cbor.Options{}
+	if c == CodecLinkKey {
+		opts.LinkKey = LinkKey(key)
+	}
+	io := baseCBOR().ApplyOptions(opts)
+	io.SetDebug(true)
+	return io
+}
+
 // LinkKeyBytes returns the 32 key bytes of shared key number k in a fresh buffer.
 func LinkKeyBytes(k int) []byte {
 	h := sha256.Sum256([]byte(fmt.Sprintf("verif-linkkey-%d", k)))
